@@ -1,0 +1,36 @@
+//go:build verif
+// +build verif
+
+package network
+
+import "sync/atomic"
+
+// Scheduling points of the router for the verification harness (property C10,
+// also used for C09); compiled only with the build tag "verif". With the tag
+// off, verifC10Point is an empty function (verif_c10_off.go).
+
+var verifC10Hook atomic.Value // of *func(name string, r *Router, c Conn)
+
+// VerifSetRouterHook installs the function called at the named points of
+// Router.Start's accept callback, Router.connect, Router.handleConn and
+// Router.Stop (nil removes it). No lock of the router is held at any point.
+func VerifSetRouterHook(f func(name string, r *Router, c Conn)) {
+	verifC10Hook.Store(&f)
+}
+
+func verifC10Point(name string, r *Router, c Conn) {
+	if p, ok := verifC10Hook.Load().(*func(name string, r *Router, c Conn)); ok && p != nil && *p != nil {
+		(*p)(name, r, c)
+	}
+}
+
+// VerifRegistered returns the number of connections in the router's table.
+func (r *Router) VerifRegistered() int {
+	r.Lock()
+	defer r.Unlock()
+	n := 0
+	for _, arr := range r.connections {
+		n += len(arr)
+	}
+	return n
+}
